@@ -262,6 +262,16 @@ theorem order_builtins (a b : LB) (ha : a.wf) (hb : b.wf) :
   · rw [Int.compare_eq_gt.mpr h]
     have : LB.beq a b = false := by rw [← Bool.not_eq_true, he]; omega
     simp [this, e5, e6]; omega
+/-- equal integers are indistinguishable however they were computed: two canonical representations of the same integer
+are equal as values, compare equal, hash equally, print equally (in every radix and under every format spec) -/
+theorem equal_indistinguishable (a b : LB) (ha : a.wf) (hb : b.wf) (h : a.den = b.den) :
+    a = b ∧ LB.beq a b = true ∧ LB.cmp a b = .eq ∧ IntB.hash a = IntB.hash b ∧ LB.toStr a = LB.toStr b ∧
+    (∀ sp, IntB.format a sp = IntB.format b sp) ∧ (∀ r, LB.magnitudeToStr a r = LB.magnitudeToStr b r) := by
+  have e := wf_den_inj a b ha hb h
+  subst e
+  refine ⟨rfl, (eq_iff a a ha ha).mpr rfl, ?_, rfl, rfl, fun _ => rfl, fun _ => rfl⟩
+  rw [cmp_spec a a ha ha]; exact Int.compare_eq_eq.mpr rfl
+
 /-! ### binomial coefficient and digits (loops of `int.rs`) -/
 
 theorem cmp_gt_iff (a b : LB) (ha : a.wf) (hb : b.wf) : (LB.cmp b a == .gt) = true ↔ a.den < b.den := by
